@@ -4,6 +4,7 @@ import (
 	"context"
 	"fmt"
 	"sync"
+	"sync/atomic"
 	"time"
 
 	"github.com/fxamacker/cbor/v2"
@@ -249,4 +250,34 @@ func bound() time.Duration {
 		}
 	})
 	return hangBound
+}
+
+// hangSeen is set once a wait has reached the full bound in this process (the violation is
+// established). The re-runs rapid then makes of the same failing case (reproduction, shrinking,
+// output capture) wait max(5 s, 200 x slowest honest receive) instead of the full bound, so that
+// a genuine hang is reported in minutes rather than hours. A fresh process (a replay) starts
+// with the full bound again.
+var hangSeen atomic.Bool
+
+func waitBound() time.Duration {
+	full := bound()
+	if !hangSeen.Load() {
+		return full
+	}
+	short := 5 * time.Second
+	if r := 200 * honestMax; r > short {
+		short = r
+	}
+	if short > full {
+		short = full
+	}
+	return short
+}
+
+// hardBound is the same idea for whole protocol runs on the shared switch.
+func hardBound(first, later time.Duration) time.Duration {
+	if hangSeen.Load() {
+		return later
+	}
+	return first
 }
